@@ -13,12 +13,15 @@ import json
 import os
 import re
 import shutil
+import sys
+import time
 
 from vf import coq
 from vf.core import REPO, sh
 
 
-LIB_PREFIX = ("c19lib.", "builtins.", "posix.", "math.", "sys.", "generator.", "uftrace_python.")
+LIB_PREFIX = ("c19lib.", "builtins.", "posix.", "math.", "sys.", "generator.", "uftrace_python.", "traceback.")
+OPAQUE = ("c19lib.q_dump", "traceback.print_exc")     # library functions whose inside is not logged
 
 C19LIB = '''import os
 LOG = []
@@ -78,7 +81,7 @@ def q_g(f, x):
         c19lib.LOG += ['X c19mod.q_g']
 '''
 
-SITE = "import os, sys, math\nimport c19lib\nimport c19mod\n"
+SITE = "import os, sys, math, traceback, linecache\nimport c19lib\nimport c19mod\n"
 
 
 # --------------------------------------------------------------------------- program generator
@@ -112,13 +115,13 @@ class Gen:
                 self.tags.add("exception-propagates")
             stmt_fn(ind)
 
-    def action(self, ind, i, nfun, raisers, gens):
+    def action(self, ind, i, nfun, raisers, gens, qual=None):
         """one statement group inside function i; callees have a larger index"""
         rng = self.rng
         later = list(range(i + 1, nfun))
         plain = [j for j in later if j not in gens]
         glist = [j for j in later if j in gens]
-        k = rng.randrange(13)
+        k = rng.randrange(17)
         if not plain:
             k = rng.choice([1, 2, 6])
         if k in (0, 7, 12) or (k == 10 and not glist):
@@ -137,7 +140,7 @@ class Gen:
         elif k == 3:
             j = rng.choice(plain)
             nm, st = rng.choice([("builtins.sorted", "sorted([d, d], key=q_f%d)" % j), ("builtins.max", "max([d], key=q_f%d)" % j),
-                                 ("builtins.max", "max([d, d + 1], key=q_f%d)" % j)])
+                                 ("builtins.max", "max([d, d], key=q_f%d)" % j)])
             self.guarded(ind, j, raisers, lambda n: self.logged(n, nm, st))
             self.tags.add("callback-from-builtin")
         elif k == 4:
@@ -173,6 +176,35 @@ class Gen:
                 self.logged(ind, "builtins.next", "next(_g)")
                 self.logged(ind, "generator.close", "_g.close()")
                 self.tags.add("generator-closed")
+        elif k == 13 and glist:
+            # generator.throw(): the exception is raised at the yield, runs the finally blocks and comes back
+            j = rng.choice(glist)
+            self.emit(ind, "_g = q_f%d(d)" % j)
+            self.logged(ind, "builtins.next", "next(_g)")
+            self.emit(ind, "try:")
+            self.logged(ind + 1, "generator.throw", "_g.throw(KeyError(d))")
+            self.emit(ind, "except KeyError:")
+            self.emit(ind + 1, "pass")
+            self.tags.add("generator-throw")
+        elif k == 14 and glist:
+            j = rng.choice(glist)
+            self.emit(ind, "_g = q_f%d(d)" % j)
+            self.logged(ind, "builtins.next", "next(_g)")
+            self.logged(ind, "generator.send", "_g.send(d)")
+            self.logged(ind, "generator.close", "_g.close()")
+            self.tags.add("generator-send")
+        elif k == 15 and qual:
+            # a list comprehension is a function of its own in CPython 3.11; it runs exactly here
+            j = rng.choice(plain)
+            self.guarded(ind, j, raisers, lambda n: self.logged(n, qual + ".<locals>.<listcomp>", "[q_f%d(d) for _i in (1, 2)]" % j))
+            self.tags.add("listcomp")
+        elif k == 16 and qual:
+            j = rng.choice(plain)
+            self.guarded(ind, j, raisers, lambda n: self.logged(n, qual + ".<locals>.<lambda>", "(lambda _x: q_f%d(_x))(d)" % j))
+            self.tags.add("lambda")
+        elif k in (13, 14, 15, 16):
+            j = rng.choice(plain)
+            self.guarded(ind, j, raisers, lambda n: self.emit(n, "q_f%d(d)" % j))
         else:   # 11
             j = rng.choice(plain)
             self.guarded(ind, j, raisers, lambda n: (self.emit(n, "for _v in c19lib.q_lgen(q_f%d, d):" % j), self.emit(n + 1, "pass")))
@@ -183,7 +215,7 @@ class Gen:
         nfun = rng.randrange(4, 9)
         raisers = set(j for j in range(2, nfun) if rng.random() < 0.25)
         gens = set(j for j in range(2, nfun) if j not in raisers and rng.random() < 0.25)
-        ending = rng.choice(["normal", "normal", "normal", "sys.exit", "os._exit", "SystemExit"])
+        ending = rng.choice(["normal", "normal", "normal", "sys.exit", "os._exit", "SystemExit", "uncaught"])
         end_fn = rng.randrange(0, min(3, nfun)) if ending in ("sys.exit", "os._exit") else None
         self.tags.add("ending:" + ending)
         L = self.lines
@@ -199,6 +231,8 @@ class Gen:
                 self.emit(0, "c19lib.LOG += ['E builtins.__build_class__']")
                 self.emit(0, "class Q_K%d:" % j)
                 self.emit(1, "c19lib.LOG += ['E Q_K%d', 'X Q_K%d']" % (j, j))
+                self.emit(1, "def __init__(self):")
+                self.emit(2, "c19lib.LOG += ['E Q_K%d.__init__', 'X Q_K%d.__init__']" % (j, j))
                 self.emit(1, "def q_m(self, d):")
                 ind = 2
                 self.tags.add("method")
@@ -222,14 +256,15 @@ class Gen:
                 self.emit(b + 1, "finally:")
                 self.emit(b + 2, "c19lib.LOG += ['E %s']" % qual)
                 if j + 1 < nfun and rng.random() < 0.5:
-                    self.action(b + 1, j, nfun, raisers, gens)
+                    self.action(b + 1, j, nfun, raisers, gens, qual)
             else:
                 if j == rec_fn:
+                    back = rng.choice([j, j] + [i for i in range(1, j) if i not in gens])
                     self.emit(b, "if d > 0:")
-                    self.emit(b + 1, "q_f%d(d - 1)" % j)
-                    self.tags.add("recursion")
+                    self.emit(b + 1, "q_f%d(d - 1)" % back)
+                    self.tags.add("recursion" if back == j else "mutual-recursion")
                 for _ in range(rng.choice([1, 1, 2, 3] if j < 3 else [0, 1, 1, 2]) if j + 1 < nfun else 0):
-                    self.action(b, j, nfun, raisers, gens)
+                    self.action(b, j, nfun, raisers, gens, qual)
                 if j == end_fn:
                     # the dump must be the last thing in the log, so print first
                     self.logged(b, "builtins.print", "print('ending', d)")
@@ -264,7 +299,10 @@ class Gen:
         self.emit(0, "c19lib.q_dump(sys.argv[1])")
         if ending == "SystemExit":
             self.emit(0, "raise SystemExit(5)")
-        fnames = sorted(set(names.values()) | set("q_f%d" % j for j in range(nfun) if style[j] == "method"))
+        if ending == "uncaught":
+            self.emit(0, "raise RuntimeError('uncaught: the interpreter prints the traceback of the script')")
+        fnames = sorted(set(names.values()) | set("q_f%d" % j for j in range(nfun) if style[j] == "method")
+                        | set("Q_K%d.__init__" % j for j in range(nfun) if style[j] == "method"))
         return "\n".join(L) + "\n", ending, fnames
 
 
@@ -328,23 +366,41 @@ class World:
         return e
 
     def write(self, prog):
-        open(self.prog, "w").write(prog["src"])
+        # the interpreter itself in the #! line (not a version-manager shim: a shell script that starts a dozen
+        # processes, all of them traced); uftrace recognises a Python script by "python" in that line
+        src = prog["src"].replace("#!/usr/bin/env python3", "#!" + os.path.realpath(sys.executable), 1)
+        open(self.prog, "w").write(src)
         os.chmod(self.prog, 0o755)
+        self.natcache = {}
 
-    def native(self):
-        log = os.path.join(self.root, "log.native")
+    def script(self, form):
+        """how the script is named on the command line: absolute, relative to the cwd, or found through PATH"""
+        return {"abs": self.prog, "rel": "main/prog.py", "path": "prog.py"}[form]
+
+    def env_for(self, form):
+        e = self.env()
+        if form == "path":
+            e["PATH"] = os.path.join(self.root, "main") + ":" + e.get("PATH", "")
+        return e
+
+    def native(self, form="abs"):
+        """the script run directly (through its #! line, like uftrace does), same command line as the traced run"""
+        if form in self.natcache:
+            return self.natcache[form]
+        log = os.path.join(self.root, "log.txt")
         if os.path.exists(log):
             os.remove(log)
         import subprocess
-        p = subprocess.run(["timeout", "20", "python3", self.prog, log], env=self.env(), capture_output=True, text=True,
+        p = subprocess.run(["timeout", "20", self.script(form), log], env=self.env_for(form), capture_output=True, text=True,
                            cwd=self.root, timeout=40)
-        return p.returncode, p.stdout, p.stderr, (open(log).read().split("\n") if os.path.exists(log) else None)
+        self.natcache[form] = (p.returncode, p.stdout, p.stderr, (open(log).read().split("\n") if os.path.exists(log) else None))
+        return self.natcache[form]
 
-    def traced(self, lib, env, patt=None, relative=False):
+    def traced(self, lib, env, patt=None, form="abs"):
         import subprocess
         d = os.path.join(self.root, "data")
         shutil.rmtree(d, ignore_errors=True)
-        log = os.path.join(self.root, "log.traced")
+        log = os.path.join(self.root, "log.txt")
         if os.path.exists(log):
             os.remove(log)
         opts = []
@@ -357,13 +413,17 @@ class World:
         if patt:
             opts += ["--match", patt]
         cmd = ["timeout", "30", self.uft, "record", "--no-pager", "--no-event", "--libmcount-path=" + self.objdir,
-               "-d", d] + opts + ["main/prog.py" if relative else self.prog, log]   # relative: main_dir by realpath()
-        p = subprocess.run(cmd, env=self.env(), capture_output=True, text=True, cwd=self.root, timeout=60)
+               "-d", d] + opts + [self.script(form), log]    # rel: main_dir by realpath(); path: looked up in PATH
+        t0 = time.time()
+        p = subprocess.run(cmd, env=self.env_for(form), capture_output=True, text=True, cwd=self.root, timeout=60)
+        self.t_record = getattr(self, "t_record", 0.0) + time.time() - t0
+        if os.environ.get("VERIF_DEBUG"):
+            self.ctx.log("record %.2fs rc=%s %s" % (time.time() - t0, p.returncode, " ".join(cmd[7:])[-90:]))
         if p.returncode != 124 and os.path.isdir(d) and not [f for f in os.listdir(d) if f.endswith(".dat")]:
             # no task data at all: legitimate when nothing is selected; seen once as a transient on a loaded
             # machine - record again and note it if the second recording differs
             shutil.rmtree(d, ignore_errors=True)
-            p = subprocess.run(cmd, env=self.env(), capture_output=True, text=True, cwd=self.root, timeout=60)
+            p = subprocess.run(cmd, env=self.env_for(form), capture_output=True, text=True, cwd=self.root, timeout=60)
             if os.path.isdir(d) and [f for f in os.listdir(d) if f.endswith(".dat")]:
                 self.ctx.extra["e2e_empty_recording_not_reproduced"] = self.ctx.extra.get("e2e_empty_recording_not_reproduced", 0) + 1
                 self.ctx.log("note: a recording without any task data was not reproduced on the second run:", " ".join(cmd[2:]))
@@ -438,7 +498,7 @@ def parse_replay(txt):
 
 
 def strip_dump(forest):
-    return [[nd[0], [] if nd[0] == "c19lib.q_dump" else strip_dump(nd[1])] + list(nd[2:]) for nd in forest]
+    return [[nd[0], [] if nd[0] in OPAQUE else strip_dump(nd[1])] + list(nd[2:]) for nd in forest]
 
 
 def c_nforest(f):
@@ -480,7 +540,7 @@ def all_names(f, acc):
 
 PRE = """From Coq Require Import ZArith NArith List Bool.
 Import ListNotations.
-Require Import UV.C19.Model.
+Require Import UV.C19.Model UV.C19.Lazy.
 """
 
 
@@ -489,7 +549,8 @@ def evaluate(ctx, ecases, name="ecases"):
         return {"mismatch": [], "violations": []}
     defs = "Definition ecases : list ecase := [\n%s\n].\n" % ";\n".join(c_ecase(k) for k in ecases)
     res = coq.run_cases(ctx, name, PRE, defs, [
-        ("mismatch", "bad_indices e_agrees ecases 0"),
+        # os._exit: the lazy record writer on the model's hook calls (C19_os_exit_records), else the plain pairing
+        ("mismatch", "bad_indices (fun k => if x_open k then e_agrees_lazy k else e_agrees k) ecases 0"),
         ("violations", "bad_indices e_ok ecases 0"),
     ])
     if res is None:
@@ -497,18 +558,22 @@ def evaluate(ctx, ecases, name="ecases"):
     return {k: coq.parse_nat_list(v) for k, v in res.items()}
 
 
-def one_config(ctx, w, prog, nat, lib, env, patt=None, relative=False):
+def one_config(ctx, w, prog, nat, lib, env, patt=None, form="abs"):
     """run one traced configuration; returns an ecase dict or None after reporting"""
-    rc, out, err, log = nat
-    t = w.traced(lib, env, patt, relative)
+    rc, out, err, log = nat = w.native(form)
+    t = w.traced(lib, env, patt, form)
     rep = {"mode": "e2e", "program": prog["src"], "ending": prog["ending"], "libcall": lib, "filters": env, "match": patt,
-           "cmd": t["cmd"]}
+           "script_path": form, "cmd": t["cmd"]}
     if t["rc"] == 124:
         ctx.violation("uftrace record did not terminate on a generated Python program", rep, True)
         return None
     if t["out"] != out:
         ctx.violation("stdout of the traced Python program differs from the native run",
                       dict(rep, native=out[-500:], traced=t["out"][-500:]), True)
+        return None
+    if t["err"] != err:
+        ctx.violation("stderr of the traced Python program differs from the native run",
+                      dict(rep, native=err[-800:], traced=t["err"][-800:]), True)
         return None
     want = "exited with code: %d" % rc
     if t["exit_status"] != want or (rc == 0) != (t["rc"] == 0):
@@ -519,7 +584,7 @@ def one_config(ctx, w, prog, nat, lib, env, patt=None, relative=False):
         ctx.violation("the program's own call log differs between the native and the traced run", rep, True)
         return None
     # which ending was reached is told by the exit status (the function that ends the program may never run)
-    ending = {3: "sys.exit", 4: "os._exit", 5: "SystemExit"}.get(rc, "normal")
+    ending = {1: "uncaught", 3: "sys.exit", 4: "os._exit", 5: "SystemExit"}.get(rc, "normal")
     forest = log_to_forest(log, ending)
     if forest is None:
         ctx.broken("generated program logged an ill-nested call sequence (generator bug)", prog["src"][-3000:])
@@ -534,7 +599,7 @@ def one_config(ctx, w, prog, nat, lib, env, patt=None, relative=False):
         ctx.log("e2e case:", lib, env, ending, "replayed", json.dumps(replay)[:300])
     return {"patt": patt, "env": env, "lib": lib, "forest": strip_dump(forest), "replay": strip_dump(replay),
             "names": all_names(forest, all_names(replay, [])), "rep": rep, "unpaired": unp, "open": ending == "os._exit",
-            "by_exception": ending in ("sys.exit", "SystemExit"), "tags": prog["tags"]}
+            "by_exception": ending in ("sys.exit", "SystemExit", "uncaught"), "tags": prog["tags"]}
 
 
 SYSEXIT_PROG = {"src": "#!/usr/bin/env python3\nimport sys\nimport c19lib\ndef q_a():\n    c19lib.LOG += ['E q_a']\n"
@@ -554,6 +619,23 @@ ABC_PROG = {"src": "#!/usr/bin/env python3\nimport os, sys\nimport c19lib\n"
                    "def c():\n    c19lib.LOG += ['E c', 'E posix.getpid']\n    os.getpid()\n    c19lib.LOG += ['X posix.getpid', 'X c']\n"
                    "a()\nc19lib.q_dump(sys.argv[1])\n",
             "ending": "normal", "fnames": ["a", "b", "c"], "tags": ["fixed:abc"]}
+
+# the script's own output: a traceback it prints itself, __name__/__file__/argv (was "<string>" before fix 6ac49d1)
+TB_PROG = {"src": "#!/usr/bin/env python3\nimport sys, traceback\nimport c19lib\n"
+                  "def q_a():\n    c19lib.LOG += ['E q_a']\n    try:\n        raise KeyError(1)\n    except KeyError:\n"
+                  "        c19lib.LOG += ['E traceback.print_exc']\n        traceback.print_exc(file=sys.stdout)\n"
+                  "        c19lib.LOG += ['X traceback.print_exc']\n"
+                  "    c19lib.LOG += ['E builtins.print']\n    print(__name__, __file__ == sys.argv[0], sys.argv[0], __file__)\n"
+                  "    c19lib.LOG += ['X builtins.print', 'X q_a']\n"
+                  "q_a()\nc19lib.q_dump(sys.argv[1])\n",
+           "ending": "normal", "fnames": ["q_a"], "tags": ["fixed:own-traceback"]}
+# a script ended by an uncaught exception: traceback on stderr and exit status 1 as in a normal run (fix 993ae53)
+UNCAUGHT_PROG = {"src": "#!/usr/bin/env python3\nimport sys\nimport c19lib\n"
+                        "def q_b(x):\n    c19lib.LOG += ['E q_b']\n    try:\n        return 1 // x\n    finally:\n        c19lib.LOG += ['X q_b']\n"
+                        "def q_a():\n    c19lib.LOG += ['E q_a']\n    try:\n        q_b(1)\n        c19lib.q_dump(sys.argv[1])\n        raise ValueError('boom')\n"
+                        "    finally:\n        c19lib.LOG += ['X q_a']\n"
+                        "q_a()\n",
+                 "ending": "uncaught", "fnames": ["q_a", "q_b"], "tags": ["fixed:uncaught-exception"]}
 
 OSEXIT_PROG = {"src": "#!/usr/bin/env python3\nimport os, sys\nimport c19lib\ndef q_b():\n    c19lib.LOG += ['E q_b', 'X q_b']\n"
                       "def q_a():\n    c19lib.LOG += ['E q_a']\n    q_b()\n    c19lib.q_dump(sys.argv[1])\n    os._exit(4)\nq_a()\n",
@@ -618,6 +700,13 @@ def run(ctx, objdir):
         else:
             ecases.append(k)      # behaves as documented in this environment: judged like every other case
             ctx.known_finding(NATIVE_KEY, text, False)
+    for prog, name, forms in ((TB_PROG, "own-traceback", ("abs", "rel")), (UNCAUGHT_PROG, "uncaught-exception", ("abs", "path"))):
+        w.write(prog)
+        for form in forms:
+            k = one_config(ctx, w, prog, None, "SINGLE" if form == "abs" else "NESTED", None, None, form)
+            if k is not None:
+                ecases.append(k)
+                ctx.case(key=("e2e-fixed", name, form), tags=["e2e:fixed-" + name, "e2e:script-path:" + form])
     # a script ended by os._exit: the hook of python/uftrace.py must still write the symbol table
     w.write(OSEXIT_PROG)
     nat = w.native()
@@ -626,28 +715,31 @@ def run(ctx, objdir):
         if k is not None:
             ecases.append(k)
             ctx.case(key=("e2e-fixed", "os._exit", lib), tags=["e2e:fixed-os._exit", "e2e:lib:" + lib])
-    nprog = ctx.n(6, 44)
+    nprog = ctx.n(7, 50)
     for pi in range(nprog):
         prog = gen_program(rng)
         w.write(prog)
         nat = w.native()
-        if nat[3] is None or nat[0] not in (0, 3, 4, 5):
+        if nat[3] is None or nat[0] not in (0, 1, 3, 4, 5):
             ctx.broken("generated program failed natively (generator bug) rc=%s: %s" % (nat[0], nat[2][-400:]), prog["src"][-3000:])
             continue
-        nconf = ctx.n(2, 5)
+        # unfiltered in the three libcall modes (cheap), then option sets with -F/-N (libmcount resolves the patterns
+        # against every native symbol table of the interpreter: about 2 s per recording)
+        nconf = 3 + ctx.n(1, 2)
         logged = sorted(set(l.split(" ", 1)[1] for l in nat[3] if l))
         for ci in range(nconf):
             lib, env, patt = gen_options(rng, prog, allow_mixed=True, logged=logged,
-                                         plain_lib=["NESTED", "SINGLE", "NONE"][pi % 3] if ci == 0 else None)
-            k = one_config(ctx, w, prog, nat, lib, env, patt, relative=(pi % 2 == 1))
+                                         plain_lib=["NESTED", "SINGLE", "NONE"][(pi + ci) % 3] if ci < 3 else None)
+            k = one_config(ctx, w, prog, nat, lib, env, patt, form=["abs", "rel", "path"][pi % 3])
             if k is None:
                 continue
             ecases.append(k)
             fk = "none" if env is None else "mixed" if any(e.startswith("!") for e in env) and not all(e.startswith("!") for e in env) \
                 else "N" if env[0].startswith("!") else "F"
             ctx.case(key=("e2e", prog["src"], lib, tuple(env or ()), patt), tags=["e2e:" + t for t in prog["tags"]] +
-                     ["e2e:lib:" + lib, "e2e:filter:" + fk, "e2e:match:" + str(patt), "e2e:script-path:" + ("relative" if pi % 2 else "absolute")], size=len(nat[3]),
+                     ["e2e:lib:" + lib, "e2e:filter:" + fk, "e2e:match:" + str(patt), "e2e:script-path:" + ["abs", "rel", "path"][pi % 3]], size=len(nat[3]),
                      sample={"e2e_cmd": k["rep"]["cmd"], "log_lines": len(nat[3])} if len(ctx.samples) < 5 else None)
+    ctx.log("e2e: %d recordings made (%.0f s inside `uftrace record`)" % (len(ecases), getattr(w, "t_record", 0.0)))
     res = evaluate(ctx, ecases)
     verdict(ctx, ecases, res)
 
@@ -657,7 +749,8 @@ def replay(ctx, objdir, obj):
     prog = {"src": obj["program"], "ending": obj.get("ending", "normal"), "fnames": [], "tags": []}
     w.write(prog)
     nat = w.native()
-    k = one_config(ctx, w, prog, nat, obj.get("libcall", "SINGLE"), obj.get("filters"), obj.get("match"))
+    k = one_config(ctx, w, prog, nat, obj.get("libcall", "SINGLE"), obj.get("filters"), obj.get("match"),
+                   obj.get("script_path", "abs"))
     ctx.case(key="replay-e2e")
     if k is None:
         return
